@@ -52,6 +52,14 @@ def build(rng, tier):
         scn['sources'][0][m] = rng.choice(['synerr', 'lexerr', 'truncated', 'empty', 'comments', 'untyped', 'macro_open', 'choice_open'])
         scn['sources'][rng.randrange(1, ns)][m] = 'ok'
         scn['broken_first_copy'] = m
+    # a module whose OIDs are defined in terms of each other (it parses, its imports are followed, its code
+    # cannot be generated): the call ends all the same
+    if rng.random() < 0.08:
+        m = rng.choice([x for x in mods if x != scn.get('folded')])
+        for si in range(ns):
+            if scn['sources'][si].get(m) == 'ok':
+                scn['sources'][si][m] = rng.choice(['oidloop', 'oidself'])
+        scn['oid_cycle'] = m
     # a file named unlike its module, whose module imports the file's own name (and is requested by it)
     if rng.random() < 0.08 and not scn['files']:
         m = rng.choice(mods)
@@ -106,6 +114,8 @@ def run_case(idx, rng, tier, res):
         res.count('smiv1_style_import_scenarios')
     if scn.get('self_alias_import'):
         res.count('alias_file_importing_its_own_name')
+    if scn.get('oid_cycle'):
+        res.count('modules_with_oids_defined_in_terms_of_each_other')
     if scn.get('source_alias'):
         res.count('sources_reporting_another_spelling')
     if scn.get('broken_first_copy'):
